@@ -16,6 +16,8 @@ pub struct A64 {
     pub calls: Vec<(String, u64)>,
     pub rng: Rng,
     pub junk: u64,
+    /// addresses in [zero.0, zero.1) read as 0 when never written (the zero-filled heap)
+    pub zero: (u64, u64),
 }
 
 impl A64 {
@@ -34,7 +36,10 @@ impl A64 {
         }
     }
     fn ld(&self, a: u64) -> u64 {
-        *self.mem.get(&a).unwrap_or(&(a.wrapping_mul(0x9E3779B97F4A7C15) ^ self.junk))
+        match self.mem.get(&a) {
+            Some(v) => *v,
+            None => if a >= self.zero.0 && a < self.zero.1 { 0 } else { a.wrapping_mul(0x9E3779B97F4A7C15) ^ self.junk },
+        }
     }
     fn base(&self, b: Register) -> Result<u64, String> {
         if let Register::SP = b {
@@ -59,7 +64,7 @@ impl Machine for A64 {
             *r = rng.next();
         }
         let junk = rng.next();
-        A64 { regs, sp: 0x7fff_0000_1000, mem: HashMap::new(), fl: None, calls: vec![], rng, junk }
+        A64 { regs, sp: 0x7fff_0000_1000, mem: HashMap::new(), fl: None, calls: vec![], rng, junk, zero: (0, 0) }
     }
 
     fn exec(&mut self, code: &[Code]) -> Exit {
@@ -296,6 +301,9 @@ impl Machine for A64 {
             Temporary::Spill(k) => Some(k.0),
             _ => None,
         }
+    }
+    fn set_zero_region(&mut self, lo: u64, hi: u64) {
+        self.zero = (lo, hi);
     }
     fn scratch_regs() -> Vec<usize> {
         vec![2, 3]
